@@ -36,7 +36,12 @@ impl<PN: PropertyName, VN: VariantName> Entry<PN, VN> {
     }
 
     fn key_count(&self) -> Count<u8> {
-        (self.common.len() as u8 + self.variants.iter().map(|v| v.len() as u8).sum::<u8>()).into()
+        let count = self.common.len() + self.variants.iter().map(|v| v.len()).sum::<usize>();
+        assert!(
+            count <= u8::MAX as usize,
+            "An entry cannot be described with more than 255 properties"
+        );
+        (count as u8).into()
     }
 }
 
@@ -44,6 +49,10 @@ impl<PN: PropertyName, VN: VariantName> Serializable for Entry<PN, VN> {
     fn serialize(&self, ser: &mut Serializer) -> IoResult<usize> {
         let mut written = 0;
         written += ser.write_u16(self.entry_size)?;
+        assert!(
+            self.variants.len() <= u8::MAX as usize,
+            "An entry cannot have more than 255 variants"
+        );
         written += ser.write_u8(self.variants.len() as u8)?;
         written += self.key_count().serialize(ser)?;
         written += self.common.serialize(ser)?;
